@@ -398,6 +398,22 @@ class _Flattener:
                 from .prims import PRIMS
                 known = set(PRIMS.get(rel + '::', ()))
                 self.module_helpers = {x.name: x for x in mod.body if isinstance(x, ast.FunctionDef) and x.name not in known}
+                # helpers the class inherits from base classes of the same module that the rules do not know either (Base.read_exactly
+                # called as self.read_exactly from every primitive): expandable like own helpers, unless overridden
+                classes = {c.name: c for c in mod.body if isinstance(c, ast.ClassDef)}
+                seen, todo = {scope.name}, [b.id for b in getattr(scope, 'bases', ()) if isinstance(b, ast.Name)]
+                while todo:
+                    bn = todo.pop(0)
+                    if bn in seen or bn not in classes:
+                        continue
+                    seen.add(bn)
+                    base = classes[bn]
+                    bknown = PRIMS.get('%s::%s' % (rel, bn))
+                    if bknown is not None:
+                        for f in base.body:
+                            if isinstance(f, ast.FunctionDef) and f.name not in bknown and f.name not in self.methods and not f.decorator_list:
+                                self.methods[f.name] = f
+                    todo.extend(b.id for b in base.bases if isinstance(b, ast.Name))
 
     def static(self, callee):
         return self.module_level or _is_static(callee)
@@ -433,6 +449,82 @@ class _Flattener:
         if not _expandable(callee):
             return None
         return callee
+
+    def generator_of(self, call, stack):
+        """the helper generator (own / inherited new method called through self) that `call` invokes, when it has the one shape that
+        merges into the caller's loop:   [statements without yield]  for T in IT: ...statements without yield...; yield V   """
+        f = call.func
+        if self.module_level or not (isinstance(f, ast.Attribute) and isinstance(f.value, ast.Name) and f.value.id == 'self'):
+            return None
+        callee = self.methods.get(f.attr)
+        if callee is None or f.attr in self.keep or f.attr in stack or callee.decorator_list or callee.args.kwarg or callee.args.vararg:
+            return None
+        if any(isinstance(a, ast.Starred) for a in call.args) or any(k.arg is None for k in call.keywords):
+            return None
+        body = list(callee.body)
+        if body and isinstance(body[0], ast.Expr) and isinstance(body[0].value, ast.Constant) and isinstance(body[0].value.value, str):
+            body = body[1:]
+        if not body or not isinstance(body[-1], ast.For) or body[-1].orelse:
+            return None
+        loop = body[-1]
+        ys = [n for n in ast.walk(callee) if isinstance(n, (ast.Yield, ast.YieldFrom))]
+        last = loop.body[-1] if loop.body else None
+        if len(ys) != 1 or not (isinstance(last, ast.Expr) and last.value is ys[0] and isinstance(ys[0], ast.Yield) and ys[0].value is not None):
+            return None
+        for n in ast.walk(callee):
+            if n is not callee and isinstance(n, (ast.FunctionDef, ast.AsyncFunctionDef, ast.ClassDef, ast.Lambda, ast.Global, ast.Nonlocal, ast.Await, ast.Return)):
+                return None
+        return callee
+
+    def expand_generator(self, loop, callee, caller_names, stack, depth):
+        """for X in self.gen(args): BODY   ->   <gen's statements before its loop>;  for T in IT: <gen's loop body before the yield>; X = V; BODY
+        (the generator runs exactly up to its yield each time the caller's loop asks for the next item; `continue` in its loop body moves on to
+        the next item of IT in both spellings, `break`/`return` in BODY abandon the generator, which has nothing after its loop)"""
+        if loop.orelse:
+            return None
+        call = loop.iter
+        body = clone(list(callee.body))
+        if body and isinstance(body[0], ast.Expr) and isinstance(body[0].value, ast.Constant) and isinstance(body[0].value.value, str):
+            body = body[1:]
+        names, defaults = _params(callee, False)
+        if len(call.args) > len(names):
+            return None
+        argmap = dict(zip(names, call.args))
+        for k in call.keywords:
+            if k.arg not in names or k.arg in argmap:
+                return None
+            argmap[k.arg] = k.value
+        for p in names:
+            if p not in argmap:
+                if p not in defaults:
+                    return None
+                argmap[p] = defaults[p]
+        stored = _stored_names(body)
+        rename, exprs, pre = {}, {}, []
+        arg_names = {n.id for a_ in argmap.values() for n in ast.walk(a_) if isinstance(n, ast.Name)}
+        for l in sorted(stored - set(names)):
+            if l in caller_names or l in arg_names:
+                rename[l] = '%s__%s' % (l, callee.name.strip('_'))
+        for p in names:
+            a_ = argmap[p]
+            if p not in stored and _pure_arg(a_):
+                if isinstance(a_, ast.Name):
+                    rename[p] = a_.id
+                else:
+                    exprs[p] = a_
+            else:
+                nm = p if (p not in caller_names and p not in arg_names) else '%s__%s' % (p, callee.name.strip('_'))
+                rename[p] = nm
+                pre.append(ast.copy_location(ast.Assign(targets=[ast.Name(id=nm, ctx=ast.Store())], value=clone(a_)), call))
+        sub = _Subst(rename, exprs)
+        body = [sub.visit(st_) for st_ in body]
+        gl = body[-1]
+        y = gl.body[-1].value
+        bind = self._assign_back(clone(loop.target), y.value, loop)
+        merged = ast.copy_location(ast.For(target=gl.target, iter=gl.iter, body=gl.body[:-1] + bind + list(loop.body), orelse=[]), loop)
+        ast.fix_missing_locations(merged)
+        self.expanded.append(callee.name)
+        return self.block(pre + body[:-1] + [merged], caller_names | set(rename.values()), stack + (callee.name,), depth + 1)
 
     def expand(self, call, callee, target, caller_names, stack, depth):
         """-> list of statements replacing the call, or None.  target: None (value discarded), 'return', or an assignment target node"""
@@ -716,6 +808,8 @@ class _Flattener:
                         rep = self.expand(s.value, c, 'return', caller_names, stack, depth)
                         if rep is not None and _may_fall_off(rep):
                             rep.append(ast.copy_location(ast.Return(value=ast.copy_location(ast.Constant(value=None), s)), s))
+                elif isinstance(s, ast.For) and isinstance(s.iter, ast.Call) and self.generator_of(s.iter, stack) is not None:
+                    rep = self.expand_generator(s, self.generator_of(s.iter, stack), caller_names, stack, depth)
                 elif isinstance(s, ast.For) and isinstance(s.iter, ast.Call) and self.callee_of(s.iter, stack) is not None:
                     # for x in self.m(...):   ->   m__result = self.m(...)  [expanded];  for x in m__result:
                     c = self.callee_of(s.iter, stack)
